@@ -39,3 +39,248 @@ pub(crate) fn ghost_pos(c: &AesGcm256) -> u64 {
 pub(crate) fn ghost_ghash(c: &AesGcm256) -> (u128, u128) {
     (c.ghash.h, c.ghash.y)
 }
+
+// ------------------------------------------------------------------------------------------
+// H-GCM-*: the real incremental GCM composition (aesgcm.rs) over the model primitives (C06)
+// ------------------------------------------------------------------------------------------
+/// reference one-shot GCM composition written from the standard (NIST SP 800-38D), over the same
+/// model block function / accumulator: J0 = nonce || 0x00000001, data keystream from J0+1,
+/// GHASH over zero-padded ciphertext then [len(aad)]_64 || [len(ct)]_64 (bits), tag = GHASH ^ E(J0)
+fn reference_gcm(key: &Key, nonce: &Nonce, msg: &[u8; 24], len: usize) -> ([u8; 24], [u8; 16]) {
+    let aes = Aes256::model_new(key);
+    let mut j0 = [0u8; 16];
+    j0[..12].copy_from_slice(nonce);
+    j0[15] = 1;
+    let j0 = u128::from_be_bytes(j0);
+    let h = aes.enc(0);
+    let mut ct = [0u8; 24];
+    let mut i = 0;
+    while i < len {
+        let blk = aes.enc(j0.wrapping_add(1 + (i / 16) as u128));
+        ct[i] = msg[i] ^ (blk >> (8 * (15 - (i % 16)))) as u8;
+        i += 1;
+    }
+    let mut g = GHash::model_new(h);
+    let mut off = 0;
+    while off < len {
+        let n = core::cmp::min(16, len - off);
+        let mut b = [0u8; 16];
+        b[..n].copy_from_slice(&ct[off..off + n]);
+        g.absorb(u128::from_be_bytes(b));
+        off += n;
+    }
+    g.absorb(((len as u128) * 8) & 0xFFFF_FFFF_FFFF_FFFF);
+    let tag = (g.y ^ aes.enc(j0)).to_be_bytes();
+    (ct, tag)
+}
+
+//@ props: C06
+//@ functions: crypto::aesgcm::AesGcm256::new (real body); model_build (harness constructor used by the reader/writer harnesses)
+//@ bounds: any 32-byte key, any 12-byte nonce, empty associated data
+//@ stubs: alloc::fmt::format
+//@ outside: real AES / GHASH values (covered by the suite's NIST vectors); non-empty associated data (never used by MLA)
+//@ replay: verif_replay_aesgcm::gcm_vectors
+#[kani::proof]
+#[kani::unwind(34)]
+#[kani::stub(alloc::fmt::format, nofmt)]
+fn h_gcm_new_equiv() {
+    let key: Key = kani::any();
+    let nonce: Nonce = kani::any();
+    let a = match AesGcm256::new(&key, &nonce, b"") {
+        Ok(a) => a,
+        Err(e) => {
+            core::mem::forget(e);
+            assert!(false, "cipher construction fails");
+            return;
+        }
+    };
+    let b = model_build(&key, &nonce);
+    let mut j0 = [0u8; 16];
+    j0[..12].copy_from_slice(&nonce);
+    j0[15] = 1;
+    assert!(a.cipher.iv == u128::from_be_bytes(j0), "initial counter block J0 = nonce || 0x00000001");
+    assert!(a.cipher.pos == 16, "data keystream starts at block J0+1");
+    assert!(a.cipher.c.k0 == b.cipher.c.k0 && a.cipher.c.k1 == b.cipher.c.k1 && a.cipher.iv == b.cipher.iv && a.cipher.pos == b.cipher.pos);
+    assert!(a.ghash.h == a.cipher.c.enc(0) && a.ghash.y == 0, "hash key H = E(0^128), accumulator starts at 0");
+    assert!(a.ghash.h == b.ghash.h && a.ghash.y == b.ghash.y);
+    assert!(a.associated_data_bits_len == 0 && a.bytes_encrypted == 0 && a.current_block.is_empty());
+    core::mem::forget(a);
+    core::mem::forget(b);
+}
+
+//@ props: C06
+//@ functions: crypto::aesgcm::AesGcm256::encrypt (unaligned pieces, pending block handling); AesGcm256::into_tag; AesGcm256::decrypt
+//@ bounds: CONCRETE message length 24 cut at 5 and 20 into three encrypt calls (one of 9 enumerated splits: block-aligned, straddling the 16-byte boundary, empty pieces, single byte, empty message); symbolic message bytes, key, nonce
+//@ stubs: AES block function / GHASH multiply are the model primitives (the composition, not the primitives, is what is decided); alloc::fmt::format
+//@ outside: other lengths/splits; real AES/GHASH values (suite's NIST vectors)
+//@ replay: verif_replay_aesgcm::gcm_split len=24 c1=5 c2=20
+#[kani::proof]
+#[kani::unwind(26)]
+#[kani::stub(alloc::fmt::format, nofmt)]
+fn h_gcm_split_24_5_20() {
+    gcm_split_body(24, 5, 20);
+}
+
+//@ props: C06
+//@ functions: crypto::aesgcm::AesGcm256::encrypt (unaligned pieces, pending block handling); AesGcm256::into_tag; AesGcm256::decrypt
+//@ bounds: CONCRETE message length 24 cut at 16 and 16 into three encrypt calls (one of 9 enumerated splits: block-aligned, straddling the 16-byte boundary, empty pieces, single byte, empty message); symbolic message bytes, key, nonce
+//@ stubs: AES block function / GHASH multiply are the model primitives (the composition, not the primitives, is what is decided); alloc::fmt::format
+//@ outside: other lengths/splits; real AES/GHASH values (suite's NIST vectors)
+//@ replay: verif_replay_aesgcm::gcm_split len=24 c1=16 c2=16
+#[kani::proof]
+#[kani::unwind(26)]
+#[kani::stub(alloc::fmt::format, nofmt)]
+fn h_gcm_split_24_16_16() {
+    gcm_split_body(24, 16, 16);
+}
+
+//@ props: C06
+//@ functions: crypto::aesgcm::AesGcm256::encrypt (unaligned pieces, pending block handling); AesGcm256::into_tag; AesGcm256::decrypt
+//@ bounds: CONCRETE message length 24 cut at 0 and 24 into three encrypt calls (one of 9 enumerated splits: block-aligned, straddling the 16-byte boundary, empty pieces, single byte, empty message); symbolic message bytes, key, nonce
+//@ stubs: AES block function / GHASH multiply are the model primitives (the composition, not the primitives, is what is decided); alloc::fmt::format
+//@ outside: other lengths/splits; real AES/GHASH values (suite's NIST vectors)
+//@ replay: verif_replay_aesgcm::gcm_split len=24 c1=0 c2=24
+#[kani::proof]
+#[kani::unwind(26)]
+#[kani::stub(alloc::fmt::format, nofmt)]
+fn h_gcm_split_24_0_24() {
+    gcm_split_body(24, 0, 24);
+}
+
+//@ props: C06
+//@ functions: crypto::aesgcm::AesGcm256::encrypt (unaligned pieces, pending block handling); AesGcm256::into_tag; AesGcm256::decrypt
+//@ bounds: CONCRETE message length 24 cut at 15 and 17 into three encrypt calls (one of 9 enumerated splits: block-aligned, straddling the 16-byte boundary, empty pieces, single byte, empty message); symbolic message bytes, key, nonce
+//@ stubs: AES block function / GHASH multiply are the model primitives (the composition, not the primitives, is what is decided); alloc::fmt::format
+//@ outside: other lengths/splits; real AES/GHASH values (suite's NIST vectors)
+//@ replay: verif_replay_aesgcm::gcm_split len=24 c1=15 c2=17
+#[kani::proof]
+#[kani::unwind(26)]
+#[kani::stub(alloc::fmt::format, nofmt)]
+fn h_gcm_split_24_15_17() {
+    gcm_split_body(24, 15, 17);
+}
+
+//@ props: C06
+//@ functions: crypto::aesgcm::AesGcm256::encrypt (unaligned pieces, pending block handling); AesGcm256::into_tag; AesGcm256::decrypt
+//@ bounds: CONCRETE message length 17 cut at 1 and 16 into three encrypt calls (one of 9 enumerated splits: block-aligned, straddling the 16-byte boundary, empty pieces, single byte, empty message); symbolic message bytes, key, nonce
+//@ stubs: AES block function / GHASH multiply are the model primitives (the composition, not the primitives, is what is decided); alloc::fmt::format
+//@ outside: other lengths/splits; real AES/GHASH values (suite's NIST vectors)
+//@ replay: verif_replay_aesgcm::gcm_split len=17 c1=1 c2=16
+#[kani::proof]
+#[kani::unwind(26)]
+#[kani::stub(alloc::fmt::format, nofmt)]
+fn h_gcm_split_17_1_16() {
+    gcm_split_body(17, 1, 16);
+}
+
+//@ props: C06
+//@ functions: crypto::aesgcm::AesGcm256::encrypt (unaligned pieces, pending block handling); AesGcm256::into_tag; AesGcm256::decrypt
+//@ bounds: CONCRETE message length 16 cut at 7 and 9 into three encrypt calls (one of 9 enumerated splits: block-aligned, straddling the 16-byte boundary, empty pieces, single byte, empty message); symbolic message bytes, key, nonce
+//@ stubs: AES block function / GHASH multiply are the model primitives (the composition, not the primitives, is what is decided); alloc::fmt::format
+//@ outside: other lengths/splits; real AES/GHASH values (suite's NIST vectors)
+//@ replay: verif_replay_aesgcm::gcm_split len=16 c1=7 c2=9
+#[kani::proof]
+#[kani::unwind(26)]
+#[kani::stub(alloc::fmt::format, nofmt)]
+fn h_gcm_split_16_7_9() {
+    gcm_split_body(16, 7, 9);
+}
+
+//@ props: C06
+//@ functions: crypto::aesgcm::AesGcm256::encrypt (unaligned pieces, pending block handling); AesGcm256::into_tag; AesGcm256::decrypt
+//@ bounds: CONCRETE message length 20 cut at 3 and 4 into three encrypt calls (one of 9 enumerated splits: block-aligned, straddling the 16-byte boundary, empty pieces, single byte, empty message); symbolic message bytes, key, nonce
+//@ stubs: AES block function / GHASH multiply are the model primitives (the composition, not the primitives, is what is decided); alloc::fmt::format
+//@ outside: other lengths/splits; real AES/GHASH values (suite's NIST vectors)
+//@ replay: verif_replay_aesgcm::gcm_split len=20 c1=3 c2=4
+#[kani::proof]
+#[kani::unwind(26)]
+#[kani::stub(alloc::fmt::format, nofmt)]
+fn h_gcm_split_20_3_4() {
+    gcm_split_body(20, 3, 4);
+}
+
+//@ props: C06
+//@ functions: crypto::aesgcm::AesGcm256::encrypt (unaligned pieces, pending block handling); AesGcm256::into_tag; AesGcm256::decrypt
+//@ bounds: CONCRETE message length 1 cut at 0 and 1 into three encrypt calls (one of 9 enumerated splits: block-aligned, straddling the 16-byte boundary, empty pieces, single byte, empty message); symbolic message bytes, key, nonce
+//@ stubs: AES block function / GHASH multiply are the model primitives (the composition, not the primitives, is what is decided); alloc::fmt::format
+//@ outside: other lengths/splits; real AES/GHASH values (suite's NIST vectors)
+//@ replay: verif_replay_aesgcm::gcm_split len=1 c1=0 c2=1
+#[kani::proof]
+#[kani::unwind(26)]
+#[kani::stub(alloc::fmt::format, nofmt)]
+fn h_gcm_split_1_0_1() {
+    gcm_split_body(1, 0, 1);
+}
+
+//@ props: C06
+//@ functions: crypto::aesgcm::AesGcm256::encrypt (unaligned pieces, pending block handling); AesGcm256::into_tag; AesGcm256::decrypt
+//@ bounds: CONCRETE message length 0 cut at 0 and 0 into three encrypt calls (one of 9 enumerated splits: block-aligned, straddling the 16-byte boundary, empty pieces, single byte, empty message); symbolic message bytes, key, nonce
+//@ stubs: AES block function / GHASH multiply are the model primitives (the composition, not the primitives, is what is decided); alloc::fmt::format
+//@ outside: other lengths/splits; real AES/GHASH values (suite's NIST vectors)
+//@ replay: verif_replay_aesgcm::gcm_split len=0 c1=0 c2=0
+#[kani::proof]
+#[kani::unwind(26)]
+#[kani::stub(alloc::fmt::format, nofmt)]
+fn h_gcm_split_0_0_0() {
+    gcm_split_body(0, 0, 0);
+}
+
+fn gcm_split_body(len: usize, c1: usize, c2: usize) {
+    let key: Key = [kani::any(); 32];
+    let nonce: Nonce = [kani::any(); 12];
+    let msg: [u8; 24] = kani::any();
+    let (want_ct, want_tag) = reference_gcm(&key, &nonce, &msg, len);
+    let mut buf = msg;
+    let mut c = model_build(&key, &nonce);
+    c.encrypt(&mut buf[..c1]);
+    c.encrypt(&mut buf[c1..c2]);
+    c.encrypt(&mut buf[c2..len]);
+    let tag = c.into_tag();
+    let mut i = 0;
+    while i < 24 {
+        if i < len {
+            assert!(buf[i] == want_ct[i], "ciphertext independent of how the message is split into calls");
+        }
+        i += 1;
+    }
+    let mut j = 0;
+    while j < 16 {
+        assert!(tag[j] == want_tag[j], "tag equals the one-shot GCM tag for every split");
+        j += 1;
+    }
+    // decrypt: same tag from the ciphertext, plaintext restored
+    let mut d = model_build(&key, &nonce);
+    let t2 = d.decrypt(&mut buf[..len]);
+    let mut k = 0;
+    while k < 16 {
+        assert!(t2[k] == want_tag[k], "decrypt recomputes the same tag");
+        k += 1;
+    }
+    let mut m = 0;
+    while m < 24 {
+        if m < len {
+            assert!(buf[m] == msg[m], "decrypt restores the message");
+        }
+        m += 1;
+    }
+    kani::cover!(true, "composition executed to the end");
+    core::mem::forget(d);
+}
+
+/// keystream byte of the cipher's key/iv at absolute stream position `p` (ghost accessor)
+pub(crate) fn ks_at(c: &AesGcm256, p: u64) -> u8 {
+    c.cipher.ks_byte(p)
+}
+
+/// cipher state of a chunk in which `off` (<= 4) bytes were already encrypted: keystream position
+/// 16 + off, the `off` ciphertext bytes pending in the current GHASH block (loop-free)
+pub(crate) fn model_build_at(key: &Key, nonce: &Nonce, off: u64, pending: [u8; 4]) -> AesGcm256 {
+    let mut c = model_build(key, nonce);
+    c.cipher.pos = 16 + off;
+    c.bytes_encrypted = off;
+    let mut v = Vec::with_capacity(BLOCK_SIZE);
+    v.extend_from_slice(&pending);
+    unsafe { v.set_len(off as usize) };
+    c.current_block = v;
+    c
+}
